@@ -43,7 +43,10 @@ def analysis(repo):
 
 def tracked_params(an, key):
     pk = an.param_kinds[key]
-    return {p for p, k in pk.items() if k in TRACKED_KINDS}
+    # only the kinds the function *documents*: a kind inferred for a private helper's parameter from its call sites refines the
+    # analysis, it does not make the helper a function the property speaks about (it may work on its caller's private copy)
+    inferred = getattr(an, "inferred_kinds", {})
+    return {p for p, k in pk.items() if k in TRACKED_KINDS and (key, p) not in inferred}
 
 
 def run(chk):
